@@ -35,6 +35,42 @@ type harness struct {
 	defaults *outcome
 
 	undecided []string // table entries whose environment form ran into a list defect trigger
+
+	// listDefectsAbsent: the canary (calibrate) found neither list defect in this build, so a trigger in
+	// the environment form of a table entry does not make the entry undecidable
+	listDefectsAbsent bool
+}
+
+// calibrate loads a tiny catalogue completely from the environment many times: several variables per
+// list, nested keys below elements that exist nowhere else. If every load equals the file load the
+// loader under test is free of the two list defects.
+func (h *harness) calibrate() {
+	ls := cat(
+		kv("mechanisms.authenticators.0", "id", "a0", "type", "anonymous", "config.subject", "canary"),
+		kv("mechanisms.authenticators.1", "id", "a1", "type", "basic_auth", "config.user_id", "u", "config.password", "p"),
+		kv("mechanisms.finalizers.0", "id", "f0", "type", "header", "config.headers.x-a", "1a", "config.headers.x-b", "b"),
+		kv("serve.decision", "trusted_proxies.0", "10.0.0.1", "trusted_proxies.1", "10.0.0.2"),
+		kv("providers.http_endpoint", "endpoints.0.url", "http://foo.bar/x", "endpoints.0.retry.max_delay", "1s", "endpoints.0.retry.give_up_after", "5s"),
+	)
+	file := toYAML(build(toPlaced(ls, func(l tleaf) (any, bool) { return l.v, true })))
+	exp := h.w.load(file, nil)
+	var env []envLeaf
+	for _, l := range ls {
+		env = append(env, envLeaf{parsePath(l.path), envVar{envName(parsePath(l.path)), envValue(l.v, false)}})
+	}
+	rng := h.r.Stream("canary")
+	clean := exp.loaded()
+	n := 40
+	for _, ord := range orders(len(env), n, rng) {
+		o := h.w.load("", envIn(ord, env))
+		if !o.loaded() || o.Canon != exp.Canon {
+			clean = false
+			h.r.Count("canary_loads_differing", 1)
+		}
+	}
+	h.r.Count("canary_loads", n)
+	h.listDefectsAbsent = clean
+	h.r.Set("list_defects_absent_in_this_build", clean)
 }
 
 // ---------------------------------------------------------------------------------------------
@@ -152,6 +188,7 @@ type triggers struct {
 	dotRoots, dotLists map[string]bool
 	sibVars, dotVars   int
 	nestedVars         int // variables addressing list elements at all
+	dotPaths           []string
 }
 
 func findTriggers(p parts) triggers {
@@ -200,9 +237,21 @@ func findTriggers(p parts) triggers {
 		}
 		if hit {
 			t.dotVars++
+			t.dotPaths = append(t.dotPaths, pathString(e.Path))
 		}
 	}
 	return t
+}
+
+// dottedVarExplains: p is the leaf of a nested-key variable, lies below it, or is a container on the way to it
+func (t triggers) dottedVarExplains(p string) bool {
+	x := strings.TrimSuffix(p, ".#")
+	for _, q := range t.dotPaths {
+		if q == x || strings.HasPrefix(x, q+".") || strings.HasPrefix(q, x+".") {
+			return true
+		}
+	}
+	return false
 }
 
 func (t triggers) none() bool { return len(t.sibRoots) == 0 && len(t.dotRoots) == 0 }
@@ -332,11 +381,29 @@ func (h *harness) judge(rep caseReport, generic string, exp, obs *outcome, t tri
 	if !t.none() {
 		fo = fileOnly()
 	}
+	// a lost leaf below a list with several variables can be explained by either defect; it is put down
+	// to the nested-key defect only if every such leaf of this load belongs to a nested-key variable
+	// (the sibling defect also drops variables like `<list>_0_ID`)
+	var sibOnly bool
+	kind := map[string]int{}
 	for _, p := range diffs {
+		ll := lossLike(p, exp.Leaves, obs.Leaves, fo)
+		sib := under(p, t.sibRoots, t.sibLists) && ll
+		dot := under(p, t.dotRoots, t.dotLists) && t.dottedVarExplains(p) && (ll || strings.HasSuffix(p, ".#"))
 		switch {
-		case under(p, t.sibRoots, t.sibLists) && lossLike(p, exp.Leaves, obs.Leaves, fo):
+		case sib && dot:
+			kind[p] = 3
+		case sib:
+			kind[p], sibOnly = 1, true
+		case dot:
+			kind[p] = 2
+		}
+	}
+	for _, p := range diffs {
+		switch k := kind[p]; {
+		case k == 1 || (k == 3 && sibOnly):
 			d1 = append(d1, p)
-		case under(p, t.dotRoots, t.dotLists) && lossLike(p, exp.Leaves, obs.Leaves, fo):
+		case k == 2 || k == 3:
 			d2 = append(d2, p)
 		default:
 			rest = append(rest, p)
@@ -493,6 +560,16 @@ func (h *harness) runCase(id string, tree map[string]any, light bool, rng *rand.
 	h.w.checkUsable(exp)
 	r.Count("loads_with_file", 1)
 	if !exp.usable() {
+		if exp.Schema {
+			// rejected by the schema: does the loader itself support it (section form: no schema, no list reconstruction)?
+			vars := envIn(orders(len(sectionVars(build(makeParts(leaves, all, nil).file))), 1, nil)[0], sectionVars(build(makeParts(leaves, all, nil).file)))
+			o := h.w.load("", vars)
+			h.w.checkUsable(o)
+			if o.usable() {
+				r.Violation("file-rejected-by-schema-usable-from-environment", "a generated configuration is rejected by the file schema but usable from the environment: "+short(exp.LoadErr, 200),
+					caseReport{Case: id, Plan: "all-file vs. one variable per section", File: intended, Env: vars, Expected: "usable from both or from neither", Observed: "file: " + exp.LoadErr + "; environment: usable"})
+			}
+		}
 		r.Count("generated_configurations_not_usable_from_file", 1)
 		if r.Counter("generated_configurations_not_usable_from_file") <= 3 {
 			fmt.Printf("[verif] C20 note: generated configuration %s not usable from file: %s%s\n%s\n", id, exp.LoadErr, exp.UseErr, intended)
@@ -509,6 +586,7 @@ func (h *harness) runCase(id string, tree map[string]any, light bool, rng *rand.
 		generic  string
 		nOrders  int
 		reqAware bool
+		sections bool
 	}
 	mk := func(f func(i int, l leaf) int) []int {
 		m := make([]int, len(leaves))
@@ -519,9 +597,10 @@ func (h *harness) runCase(id string, tree map[string]any, light bool, rng *rand.
 	}
 	nEnvOrders, nSplitOrders := r.Pick(5, 8), r.Pick(2, 4)
 	var plans []planT
-	plans = append(plans, planT{"all-env", mk(func(int, leaf) int { return mEnv }), sigAllEnv, nEnvOrders, false})
+	plans = append(plans, planT{"all-env", mk(func(int, leaf) int { return mEnv }), sigAllEnv, nEnvOrders, false, false})
+	plans = append(plans, planT{name: "all-env, one variable per top-level section (JSON value)", generic: sigAllEnv, nOrders: 2, sections: true})
 	if light || rng.IntN(4) == 0 {
-		plans = append(plans, planT{"all-conflicting (file: other values, env: intended values)", mk(func(int, leaf) int { return mBoth }), sigSplit, nSplitOrders, true})
+		plans = append(plans, planT{"all-conflicting (file: other values, env: intended values)", mk(func(int, leaf) int { return mBoth }), sigSplit, nSplitOrders, true, false})
 	}
 	// sparse split: at most one environment variable per list
 	{
@@ -547,20 +626,25 @@ func (h *harness) runCase(id string, tree map[string]any, light bool, rng *rand.
 				return mBoth
 			}
 			return mFile
-		}), sigSplit, nSplitOrders, true})
+		}), sigSplit, nSplitOrders, true, false})
 	}
 	if !light {
-		plans = append(plans, planT{"dense split", mk(func(int, leaf) int { return []int{mFile, mFile, mEnv, mEnv, mBoth}[rng.IntN(5)] }), sigSplit, nSplitOrders, true})
+		plans = append(plans, planT{"dense split", mk(func(int, leaf) int { return []int{mFile, mFile, mEnv, mEnv, mBoth}[rng.IntN(5)] }), sigSplit, nSplitOrders, true, false})
 	}
 	if rng.IntN(3) == 0 {
-		plans = append(plans, planT{"split ignoring required leaves", mk(func(int, leaf) int { return []int{mFile, mFile, mEnv}[rng.IntN(3)] }), sigSplit, 1, false})
+		plans = append(plans, planT{"split ignoring required leaves", mk(func(int, leaf) int { return []int{mFile, mFile, mEnv}[rng.IntN(3)] }), sigSplit, 1, false, false})
 	}
 
 	for _, pl := range plans {
-		if pl.name != "all-env" {
+		if pl.sections {
+			pl.modes = make([]int, len(leaves))
+		} else if pl.name != "all-env" {
 			densify(leaves, pl.modes, pl.reqAware)
 		}
 		p := makeParts(leaves, pl.modes, rng)
+		if pl.sections {
+			p = parts{env: sectionVars(build(p.file)), filePath: map[string]bool{}}
+		}
 		if len(p.env) == 0 {
 			continue
 		}
@@ -633,16 +717,22 @@ func TestC20(t *testing.T) {
 	r := core.Begin("C20", "exploration")
 	r.Rule("Configurations are generated from a grammar of the documented tree (serve.*, log, tracing, metrics, profiling, cache, mechanisms of every " +
 		"type with their options incl. lists inside list elements, default_rule, providers) with scalars of the type the schema expects. Every configuration is " +
-		"loaded by the real config.NewConfiguration (a) completely from a file, (b) completely from environment variables named by the documented rules, " +
-		"(c) from splits of its leaves (file only / environment only / conflicting: file holds another value, environment the intended one), each in several " +
-		"orders of os.Setenv after os.Clearenv and repeated; the canonical form of every resulting Configuration must equal (a), leaves addressed by neither " +
-		"source must keep their defaults. Usability = mechanisms.NewMechanismFactory and rules.NewRuleFactory (default rule) succeed. A schema equivalence " +
-		"table gives every mechanism type, endpoint auth type and option once by file and once by environment and compares schema verdict, usability and " +
-		"effect. A load is non-trivial when it has environment variables and either a file part or at least three variables.")
+		"loaded by the real config.NewConfiguration (a) completely from a file, (b) completely from environment variables named by the documented rules " +
+		"(prefix, `_` separator, `__` literal underscore, numeric segments as indices), (b') completely from the environment with one variable per top-level " +
+		"section, (c) from splits of its leaves (file only / environment only / conflicting: the file holds another value, the environment the intended one; " +
+		"sparse = at most one variable per list, dense = random, and splits that ignore which leaves the schema requires), each in several orders of " +
+		"os.Setenv after os.Clearenv and repeated (map iteration inside the loader); the canonical form of every resulting Configuration must equal (a), " +
+		"leaves addressed by neither source must keep their defaults. Usability = mechanisms.NewMechanismFactory and rules.NewRuleFactory (default rule) " +
+		"succeed. A schema equivalence table gives every mechanism type, endpoint auth type and option (plus spellings only one side knows) once by file and " +
+		"once by environment and compares schema verdict, usability and effect. Loads whose inputs contain a trigger of one of the two list defects are " +
+		"classified separately (class with-list-defect-trigger); all other loads are compared strictly. A load is non-trivial when it has environment " +
+		"variables and either a file part or at least three variables.")
 	r.Assume("free-form map keys (header names, values) are generated lower case: the environment naming rules cannot express upper case keys",
 		"string values are written as YAML scalars of the same text in file and environment (quoted where YAML would otherwise read another type)",
 		"'$' does not occur in values (the file is subject to ${var} substitution by design)",
-		"cache back ends and rule providers are not started: their sections are compared as configuration values only")
+		"cache back ends and rule providers are not started: their sections are compared as configuration values only",
+		"form (b') relies on the loader typing environment values with a YAML parser (a JSON object as value becomes a sub-tree); it is not a documented "+
+			"naming rule and is used as an additional way through the real loader that involves neither the file schema nor list reconstruction")
 
 	w, err := newWorld()
 	if err != nil {
@@ -662,6 +752,7 @@ func TestC20(t *testing.T) {
 			r.Inconclusive("empty configuration does not load: " + h.defaults.LoadErr)
 			return
 		}
+		h.calibrate()
 		h.runTable()
 		n := r.Pick(70, 1500)
 		rng := r.Stream("configs")
@@ -673,10 +764,10 @@ func TestC20(t *testing.T) {
 	w.restore()
 
 	r.Require("configurations", r.Counter("configurations"), int64(r.Pick(50, 1000)))
-	r.Require("loads_equal_to_all_file_strict", r.Counter("loads_equal_to_all_file_strict")+r.Counter("loads_differing_strict"), 200)
+	r.Require("loads_compared_strictly", r.Counter("loads_equal_to_all_file_strict")+r.Counter("loads_differing_strict"), 300)
 	r.Require("strict_env_variables_addressing_list_elements", r.Counter("strict_env_variables_addressing_list_elements"), 50)
 	r.Require("conflicting_leaves", r.Counter("conflicting_leaves"), 200)
-	r.Require("table_entries_decided", r.Counter("table_entries_decided"), 40)
+	r.Require("table_entries_decided", r.Counter("table_entries_decided"), 200)
 	if bad, tot := r.Counter("generated_configurations_not_usable_from_file"), r.Counter("configurations"); bad*10 > tot+bad {
 		r.Inconclusive(fmt.Sprintf("%d of %d generated configurations are not usable from a file (generator or validator out of step)", bad, bad+tot))
 	}
